@@ -199,3 +199,17 @@ def s_call_result(ex, args, kwargs, st, node):
 
 SYMBOLIC.update({"is_str_dict": s_is_str_dict, "uf": s_uf, "call_count": s_call_count, "call_kwargs": s_call_kwargs,
                  "call_arg": s_call_arg, "call_result": s_call_result})
+
+
+def uf_dict(name, *args):
+    return UF_TABLE[name](*args)
+
+
+def s_uf_dict(ex, args, kwargs, st, node):
+    nm = z3.simplify(ex.as_val(args[0], st, node).e).as_string()
+    vals = [ex.as_val(a, st, node).any() for a in args[1:]]
+    f = z3.Function(nm, *([Any] * len(vals)), DictS)
+    return Val("d", f(*vals))
+
+
+SYMBOLIC.update({"uf_dict": s_uf_dict})
